@@ -32,16 +32,35 @@ def describe(tier):
                 "own evaluation is fulfilled (a single entry is always offered; an invalid entry is selectable), compared as an ORDERED "
                 "list; accepted <=> offered (status *_AND_FILLED, flag True); a non-empty value that is not offered is flagged (flag False) "
                 "and reported *_AND_EMPTY; nothing offered => exactly IS_FORBIDDEN whatever was entered; forbidden segment => IS_FORBIDDEN "
-                "(direct call) / element not reported (through the segment). Non-trivial = pools with >= 2 entries.",
+                "(direct call) / element not reported (through the segment). E3 family: a segment with two 3-entry pools and a free-text element, SUSPENDING "
+                "evaluators, all completion orders (quick: <= 2 deviations) on the virtual event loop: every schedule's result list equals the zero-yield run and the "
+                "run with non-suspending evaluators. Non-trivial = pools with >= 2 entries.",
         "bounds": b,
         "exhaustive": True,
         "assumptions": ["qualifiers are pairwise distinct"],
     }
 
 
+# E3 family: pools validated with SUSPENDING evaluators (entries, the sibling free-text element and a second pool pending together)
+ORD_POOLS = [["X [1]", "X [2]", "X [1] U [501]"], ["X [2]", "X [1]", "X"], ["X [1P]", "X [1]", "X [2] O [501]"], ["X [1]", "X [1]", "X [1]"]]
+
+
+def _orders_model(item):
+    entries = [{"q": QUALS[i], "expr": e} for i, e in enumerate(ORD_POOLS[item["pool"]])]
+    second = [{"q": QUALS[i], "expr": e} for i, e in enumerate(ORD_POOLS[(item["pool"] + 1) % len(ORD_POOLS)])]
+    seg = {"kind": "segment", "id": "S", "expr": "Muss", "elements": [
+        {"kind": "pool", "id": "S.P0", "input": item["input"], "entries": entries},
+        {"kind": "free", "id": "S.F", "expr": "Muss [1][901]", "input": "x"},
+        {"kind": "pool", "id": "S.P1", "input": QUALS[1], "entries": second}]}
+    return [{"kind": "group", "id": "G", "expr": "Muss [1]", "groups": [], "segments": [seg]}]
+
+
 def plan(tier, seed):
     b = BOUNDS[tier]
     items = []
+    for pool in range(len(ORD_POOLS)):
+        for inp in (None, QUALS[0], QUALS[1], "ZZ9"):
+            items.append({"fam": "orders", "pool": pool, "input": inp, "order_bound": 2 if tier == "quick" else None})
     for cer in range(b["cers"]):
         for size in range(0, b["max_size"] + 1):
             if size <= 2:
@@ -147,9 +166,41 @@ def _inputs(n):
     return [None, ""] + [QUALS[i] if i < len(QUALS) else f"Q{i}" for i in range(n)] + ["ZZ9", "E0", "0", "01, Z02", ", ", "e01"]
 
 
+def _orders_violations(base, out, plain):
+    import json
+
+    vs = []
+    if out != base:
+        vs.append(("depends-on-completion-order", json.loads(base), json.loads(out)))
+    if base != plain:
+        vs.append(("suspending-evaluators-change-the-result", json.loads(plain), json.loads(base)))
+    return vs
+
+
 def run_item(item):
     H.init()
     r = Result()
+    if item.get("fam") == "orders":
+        import json
+
+        groups = _orders_model(item)
+        vloop, factory_for, observe, base, exp = H.explore_validation(groups, 0, True, item["order_bound"])
+        plain = json.dumps(list(H.V.run_validation(groups, H.env(0), True)), ensure_ascii=False, default=repr)
+        r.evaluations += exp.schedules
+        r.states += exp.decision_points
+        r.transitions += exp.decision_points
+        r.traces += exp.schedules
+        r.nontrivial += max(0, len(exp.completion_traces) - 1)
+        r.stat("schedules", exp.schedules)
+        for out in set(exp.outcomes) | {base}:
+            case = {"orders": item, "choices": exp.first_schedule_of_outcome.get(out, []), "zero_yield": out not in exp.outcomes}
+            for kind, e, o in _orders_violations(base, out, plain):
+                r.violation(kind, case, e, o, f"pool {ORD_POOLS[item['pool']]} input {item['input']!r}")
+        # the zero-yield / plain run itself is judged by the pool oracle through the direct family: same pool, same input
+        for x in check_case(ORD_POOLS[item["pool"]], item["input"], 0, 0, "segment"):
+            r.violation(x["kind"], x["case"], x["expected"], x["observed"], x["msg"])
+        r.sample({"orders": item, "schedules": exp.schedules})
+        return r
     size = item["size"]
     if item["first"] == "interleaved":
         menus = [["X [{f}]", "X", "X [{u}]", "X [{f}]", "X"], ["X [{u}]", "X [{f}]", "X [{u}]", "X [{f}]", "X [501]"],
@@ -194,4 +245,13 @@ def run_item(item):
 
 
 def replay(case):
+    if "orders" in case:
+        import json
+
+        item = case["orders"]
+        groups = _orders_model(item)
+        vloop, factory_for, observe, base, _ = H.explore_validation(groups, 0, True, "none")
+        plain = json.dumps(list(H.V.run_validation(groups, H.env(0), True)), ensure_ascii=False, default=repr)
+        out = base if case.get("zero_yield") else observe(vloop.run_schedule(factory_for(False), case["choices"]))
+        return [{"kind": k, "case": case, "expected": e, "observed": o} for k, e, o in _orders_violations(base, out, plain)]
     return check_case(case["exprs"], case["input"], case["segment"], case["cer"], case["via"], case.get("pv", 0))
